@@ -6,6 +6,7 @@ import (
 	"os"
 	"path/filepath"
 	"sort"
+	"strings"
 )
 
 type evidence struct {
@@ -33,6 +34,20 @@ type evidence struct {
 func newEvidence(prop, tier string, seed uint64, spec *PropSpec) *evidence {
 	return &evidence{prop: prop, tier: tier, seed: seed, spec: spec, faults: map[string]int{}, probes: map[string]int{}, known: map[string]int{},
 		scheds: map[uint64]struct{}{}, cases: map[uint64]struct{}{}, instr: map[string]interface{}{}}
+}
+
+// backEnd names what schedules a batch: the token kernel (A), the bubble kernel (the token kernel's API on back end
+// B), a plain synctest bubble (S3), or OS processes (S6).
+func backEnd(b *Batch) string {
+	switch {
+	case strings.Contains(b.Tags, "bkern"):
+		return "B: bubble kernel"
+	case b.Bubble:
+		return "B: synctest bubble, runtime seam"
+	case b.GenSim:
+		return "generator as OS processes"
+	}
+	return "A: token kernel"
 }
 
 func (e *evidence) merge(b *Batch, r *Result, bb *builtBin) {
@@ -65,7 +80,7 @@ func (e *evidence) merge(b *Batch, r *Result, bb *builtBin) {
 	}
 	found := false
 	for _, m := range e.batches {
-		if m["scenario"] == b.Scen && m["cfg"] == b.Cfg && m["pkg"] == b.Pkg && m["module"] == modName(b) {
+		if m["scenario"] == b.Scen && m["cfg"] == b.Cfg && m["pkg"] == b.Pkg && m["module"] == modName(b) && m["back_end"] == backEnd(b) {
 			m["runs"] = m["runs"].(int) + r.Runs
 			m["steps"] = m["steps"].(int64) + r.Steps
 			if r.WallS > m["max_worker_wall_s"].(float64) {
@@ -75,7 +90,7 @@ func (e *evidence) merge(b *Batch, r *Result, bb *builtBin) {
 		}
 	}
 	if !found {
-		e.batches = append(e.batches, map[string]interface{}{"scenario": b.Scen, "cfg": b.Cfg, "pkg": b.Pkg, "module": modName(b), "runs": r.Runs, "steps": r.Steps,
+		e.batches = append(e.batches, map[string]interface{}{"scenario": b.Scen, "cfg": b.Cfg, "pkg": b.Pkg, "module": modName(b), "back_end": backEnd(b), "runs": r.Runs, "steps": r.Steps,
 			"max_worker_wall_s": r.WallS, "real_components": b.Real, "stub_components": b.Stub, "race_detector": !b.NoRace, "instrumentation": bb.stats})
 	}
 }
